@@ -17,6 +17,9 @@ def SRC(seq, kind=0, extra=(), name_extra='', tiers=('quick', 'thorough')):
 HARNESSES = []
 for k in (0, 1, 2):
     HARNESSES += [SRC(x, k) for x in ('m', 'mm', 'mRm', 'mmRm', 'mR^m', 'mR^mRm', 'mmR^mm', 'SmmrR', 'mSmr', 'SmRrm', 'mRSmRrR')]
+# the source targets a global (overcommit) root queue directly: merges made by the handler itself must still be delivered (no serial queue re-drives the source)
+for k in (0, 1, 2):
+    HARNESSES += [SRC(x, k, extra=['-DROOTQ'], name_extra='_rootq') for x in ('m', 'mRm', 'mR^m', 'mR^mRm', 'mmR^mm', 'mR^mR^m')]
 PRL = dict(HIST_PROBES); PRL.update({'OFF_ds_refs': 'offsetof(struct dispatch_source_s, ds_refs)', 'OFF_ds_pending_data': 'offsetof(struct dispatch_source_refs_s, ds_pending_data)', 'OFF_ds_data': 'offsetof(struct dispatch_source_refs_s, ds_data)'})
 def LEM(kind, which):
     units = ENT + (['_dispatch_source_latch_and_call'] if which == 'LATCH' else [])
